@@ -192,6 +192,9 @@ class DestFeeder:
         for x in seqn:
             acts.append(x)
             r = rng.random()
+            if x is m and not self.grid_only and rng.chance(0.06):
+                # the very first write is refused (file status not yet "retained")
+                acts.append(("reject", 1, rng.choice(("PermissionError", "FileNotFoundError"))))
             if r < 0.10:
                 acts.append(("idle",))
             elif r < 0.16:
@@ -315,6 +318,17 @@ def source_session(rng: Rng, fs_kind: str = "mem", cfg: Cfg | None = None, well_
         st = s.do(c.put_line())
         if st.ret != "true":
             continue
+        if not well_behaved and not c.metadata_only and rng.chance(0.04):
+            # the source file disappears between the accepted request and the transaction start
+            s.do(f"rm S {c.src_path}")
+            s.sm("S")
+            s.drain("S")
+            if rng.chance(0.5):
+                s.do(f"file S {c.src_path} {c.data.hex() or '-'}")
+            else:
+                s.do("reset S")
+                s.do(f"file S {c.src_path} {c.data.hex() or '-'}")
+                continue
         sent_eof = False
         seq_s = None
         steps = rng.randrange(3, 16) + 2 * (n // max(1, c.seg_len))
